@@ -610,6 +610,15 @@ impl<T> Block for NoCopyFileSink<T>""")]),
         }""", """        if !self.repeat.again() {
             return Ok(true);
         }""")]),
+    dict(name="c1r8+samples-in-forgets-division", prop="C02", expect="C02.R11:circular_buffer::Buffer::total_size:total_size",
+         patch="/verif/neutral_seeded/c1-r8/patch.diff", edits=[],
+         post_edits=[E("src/circular_buffer.rs", "        samples_in(bytes, self.member_size)", "        bytes")]),
+    dict(name="c4r8+header-rest-len-off-by-range", prop="C14", expect="C14.R3:au::header_rest_len|overflow:Sub",
+         patch="/verif/neutral_seeded/c4-r8/patch.diff", edits=[],
+         post_edits=[E("src/au.rs", "        0..=23 => Err(Error::msg(format!(", "        0..=6 => Err(Error::msg(format!(")]),
+    dict(name="c5r8+macro-output-clamp-dropped", prop="C19", expect="C19.R2:",
+         patch="/verif/neutral_seeded/c5-r8/patch.diff", edits=[],
+         post_edits=[E("rustradio_macros/src/lib.rs", "let n = [#(#out_names.len()),*].iter().copied().fold(n_in, usize::min);", "let n = n_in;")]),
     dict(name="m4r5+macro-no-take", prop="C08", expect="C08.R1:",
          patch="/verif/neutral_seeded/m4-r5/patch.diff", edits=[],
          post_edits=[E("rustradio_macros/src/lib.rs", "#zipped_inputs.take(n).enumerate()", "#zipped_inputs.enumerate()")]),
